@@ -43,21 +43,16 @@ theorem coh_congr {s s' : St α} (h : Coh s) (h1 : s'.legs = s.legs) (h2 : s'.Tb
 
 /-! ### solvers: whatever they return, the platform ends coherent with the poses it reports -/
 
-theorem fkRaphson_good (p : Par α) (s : St α) (bottom : T4 α) (o : List (Sol α))
-    {b t : T4 α} {s' : St α} {o' : List (Sol α)} (h : fkRaphson p s bottom o = some (b, t, s', o')) :
+theorem fkRaphsonNF_good (p : Par α) (s : St α) (bottom : T4 α) (o : List (Sol α))
+    {b t : T4 α} {s' : St α} {o' : List (Sol α)} (h : fkRaphsonNF p s bottom o = some (b, t, s', o')) :
     s'.Tb = b ∧ s'.Tt = t ∧ Coh s' := by
-  unfold fkRaphson at h
+  unfold fkRaphsonNF at h
   split at h
-  · simp only [Option.some.injEq, Prod.mk.injEq] at h
-    obtain ⟨rfl, rfl, rfl, _⟩ := h
-    exact ⟨rfl, rfl, coh_ikP _ _ _⟩
-  · simp only [Option.some.injEq, Prod.mk.injEq] at h
-    obtain ⟨rfl, rfl, rfl, _⟩ := h
-    exact ⟨rfl, rfl, coh_ikP _ _ _⟩
-  · simp only [Option.some.injEq, Prod.mk.injEq] at h
-    obtain ⟨rfl, rfl, rfl, _⟩ := h
-    exact ⟨rfl, rfl, coh_ikP _ _ _⟩
-  · simp at h
+  all_goals first
+    | (simp only [Option.some.injEq, Prod.mk.injEq] at h
+       obtain ⟨rfl, rfl, rfl, _⟩ := h
+       exact ⟨rfl, rfl, coh_ikP _ _ _⟩)
+    | simp at h
 
 theorem fkSolve_good (p : Par α) (s : St α) (L : List α) (bottom : T4 α) (protect : Bool) (o : List (Sol α))
     {b t : T4 α} {s' : St α} {o' : List (Sol α)} (h : fkSolve p s L bottom protect o = some (b, t, s', o')) :
@@ -66,7 +61,7 @@ theorem fkSolve_good (p : Par α) (s : St α) (L : List α) (bottom : T4 α) (pr
   split at h
   · dsimp only at h
     split at h
-    · exact fkRaphson_good _ _ _ _ h
+    · exact fkRaphsonNF_good _ _ _ _ h
     · simp only [Option.some.injEq, Prod.mk.injEq] at h
       obtain ⟨rfl, rfl, rfl, _⟩ := h
       cases protect
@@ -76,14 +71,28 @@ theorem fkSolve_good (p : Par α) (s : St α) (L : List α) (bottom : T4 α) (pr
         exact ⟨rfl, rfl, coh_ikP _ _ _⟩
   · simp at h
 
-theorem fkFinish_coh (bottom top : T4 α) (s : St α) (hb : s.Tb = bottom) (ht : s.Tt = top) (hc : Coh s) :
-    Coh (fkFinish bottom top s) := by
+theorem fkRaphson_good (p : Par α) (s : St α) (L : List α) (bottom : T4 α) (protect : Bool) (o : List (Sol α))
+    {b t : T4 α} {s' : St α} {o' : List (Sol α)} (h : fkRaphson p s L bottom protect o = some (b, t, s', o')) :
+    s'.Tb = b ∧ s'.Tt = t ∧ Coh s' := by
+  unfold fkRaphson at h
+  split at h
+  · exact fkSolve_good _ _ _ _ _ _ h
+  · exact fkSolve_good _ _ _ _ _ _ h
+  · exact fkRaphsonNF_good _ _ _ _ h
+
+theorem fkFinish_coh (bottom top : T4 α) (s : St α) (o : List (Sol α)) (hb : s.Tb = bottom) (ht : s.Tt = top) (hc : Coh s)
+    {t' : T4 α} {s' : St α} {o' : List (Sol α)} (h : fkFinish bottom top s o = some (t', s', o')) : Coh s' := by
   have hrel : s.rel = transInv bottom * top := by rw [hc.2.2.2, hb, ht]
-  unfold fkFinish
-  dsimp only
-  split
-  · exact coh_congr hc rfl rfl rfl rfl rfl rfl hrel.symm
-  · exact coh_congr hc rfl rfl rfl rfl rfl rfl hrel.symm
+  unfold fkFinish at h
+  split at h
+  · simp only [Option.some.injEq, Prod.mk.injEq] at h
+    obtain ⟨_, rfl, _⟩ := h
+    exact coh_congr hc rfl rfl rfl rfl rfl rfl hrel.symm
+  · split at h
+    · simp only [Option.some.injEq, Prod.mk.injEq] at h
+      obtain ⟨_, rfl, _⟩ := h
+      exact coh_congr (coh_ikP s _ s.Tb) rfl rfl rfl rfl rfl rfl rfl
+    · simp at h
 
 theorem fkCore_coh (p : Par α) (s : St α) (L : List α) (o : List (Sol α)) (protect : Bool)
     {top : T4 α} {s' : St α} {o' : List (Sol α)} (h : fkCore p s L o protect = some (top, s', o')) : Coh s' := by
@@ -95,11 +104,9 @@ theorem fkCore_coh (p : Par α) (s : St α) (L : List α) (o : List (Sol α)) (p
       unfold fkSolver at hr
       split at hr
       · exact fkSolve_good _ _ _ _ _ _ hr
-      · exact fkRaphson_good _ _ _ _ hr
+      · exact fkRaphson_good _ _ _ _ _ _ hr
     obtain ⟨hb, ht, hc⟩ := hg
-    simp only [Option.some.injEq, Prod.mk.injEq] at h
-    obtain ⟨_, rfl, _⟩ := h
-    exact fkFinish_coh _ _ _ hb ht hc
+    exact fkFinish_coh _ _ _ _ hb ht hc h
 
 /-! ### validation -/
 
